@@ -84,13 +84,14 @@ def soak_history(rng, n):
     return ev
 
 
-def gen(c, maxlen, gx, metadir=None):
+def gen(c, maxlen, gx, metadir=None, first_registers=False):
     cfg = c.path("Gen%d.cfg" % maxlen)
     with open(cfg, "w") as f:
         f.write('CONSTANT Good = {"t1", "t2"}\nCONSTANT Invalid = {"i1"}\nCONSTANT Unparseable = {"x1"}\n'
                 'CONSTANT Versions = {1, 2}\nCONSTANT MalformedKinds = {"noversion", "strversion"}\nCONSTANT Dev = {}\n'
                 'CONSTANT MaxLen = %d\nCONSTANT GT = {"t1", "t2"}\nCONSTANT GX = %s\nCONSTANT GFirst = "t1"\n'
-                'INIT GInit\nNEXT GNext\nINVARIANT Emit\nINVARIANT GenMonAccepts\n' % (maxlen, tla_set(gx)))
+                'CONSTANT FirstRegisters = %s\n'
+                'INIT GInit\nNEXT GNext\nINVARIANT Emit\nINVARIANT GenMonAccepts\n' % (maxlen, tla_set(gx), "TRUE" if first_registers else "FALSE"))
     g = vlib.run_tlc("conc/Gen_PersistedQueries.tla", cfg, workers=4 if maxlen <= 3 else 8, timeout=1800, keep_lines=50, xmx="8g",
                      metadir=metadir)
     if g.invariant_violated:
@@ -138,8 +139,13 @@ def body(c):
         with open(c.replay) as f:
             case = json.load(f)["case"]
         ev = [rq(e["ext"], e["q"], e["h"], e["v"], e.get("pk", "")) for e in case["events"]]
+        # the recorded history on its own storage first, then on the other storages (evictions only exist on "obs")
         st = case["storage"]
-        rows.append({"storage": "obs" if st == "obs" else "lru", "cap": int(st[3:]) if st != "obs" else 0, "events": ev, "src": "replay"})
+        noev = [e for e in ev if e["ext"] != "evict"]
+        alls = [("obs", 0, ev), ("lru", 1, noev), ("lru", 2, noev)]
+        alls.sort(key=lambda x: 0 if (x[0] == "obs") == (st == "obs") and (st == "obs" or x[1] == int(st[3:])) else 1)
+        for sname, cap, evs in alls:
+            rows.append({"storage": sname, "cap": cap, "events": evs, "src": "replay"})
         exhaustive = False
     else:
         c.add_tlc("G histories of 3 events (2 good texts + invalid + unparseable)", g3[0])
@@ -150,14 +156,14 @@ def body(c):
             c.add_tlc("G histories of 4 events (2 good texts)", r4)
             for k, ev in enumerate(g4):
                 add(ev, "G4", not any(e["ext"] == "evict" for e in ev), k)
-            r5, g5 = gen(c, 5, [])
-            c.add_tlc("G histories of 5 events (2 good texts)", r5)
-            if len(g5) > 40000:
-                g5 = rng.sample(g5, 40000)
+            r5, g5 = gen(c, 5, [], first_registers=True)
+            c.add_tlc("G histories of 5 events starting with a registration (2 good texts)", r5)
+            if len(g5) > 20000:
+                g5 = rng.sample(g5, 20000)
                 exhaustive = False
             for k, ev in enumerate(g5):
                 add(ev, "G5", False, k)
-        for k in range(200 if c.quick else 3000):
+        for k in range(200 if c.quick else 2000):
             add(random_history(rng, rng.randint(10, 40)), "random", True, k)
         for k in range(2 if c.quick else 12):
             rows.append({"storage": "lru", "cap": 1 + k % 2, "events": soak_history(rng, 400 if c.quick else 1500), "src": "soak"})
@@ -202,7 +208,7 @@ def body(c):
         classes = [classify(e) for e in tr["events"]]
         for e, k in zip(tr["events"], classes):
             bump(k)
-            if k == "lookup":
+            if k == "lookup" and row["src"] != "soak":   # soak: real LRU eviction depends on scc's random hasher; not counted
                 bump(("hit " if e["exec"] else "miss ") + ("lru" if tr["storage"] != "obs" else "obs"))
         nontrivial = any(k in ("lookup", "mismatch", "version", "malformed") for k in classes)
         c.count_case({"storage": tr["storage"], "events": row["events"]}, nontrivial)
@@ -226,7 +232,7 @@ def body(c):
                      "history runs on a fresh Schema over the harness's own storage (evictions on command) and, without evictions, "
                      "over the real LruCacheStorage(1|2); non-trivial = the history contains a hash-only, mismatching, wrong-version "
                      "or malformed request; distinct by (storage, request list)"
-                     % ("" if c.quick else ", 4 events and 5 events (5: sampled 40000)"))
+                     % ("" if c.quick else ", 4 events, and 5 events starting with a registration (sampled 20000)"))
     for tr in [traces[0]] + [t for t, r in zip(traces, rows) if r["src"] == "random"][:1]:
         c.sample({"storage": tr["storage"], "events": [[e["ext"], e["q"], e["h"], e["v"], e["exec"], e["err"]] for e in tr["events"][:8]],
                   "verdict": verdicts[tr["id"]][0]})
